@@ -190,6 +190,7 @@ func verifyFunc(p *Program, fn *ssa.Function, fc *FuncContract) (u *UnitResult) 
 		envs = append(envs, retEnv{env, r.st})
 		lenv := fr.specEnv(r.st, ext)
 		lenv.atBlock = r.block
+		lenv.atBlockEnd = true
 		lenvs = append(lenvs, retEnv{lenv, r.st})
 	}
 	for ri, re := range envs {
